@@ -418,4 +418,73 @@ def computeProcID (data : Bytes) (n seed : Nat) : ProcID :=
             .ok (s % n)
     | _, _, _ => .panic
 
+/-! ### `pkg/stun`: `Is`, `ParseBindingRequest`, `foreachAttr` (the internal link's non-SCION branch)
+
+Slices are taken with `slice?`, which fails when the Go slice expression would panic. -/
+
+/-- `b[i:j]`; `none` iff Go panics (`i > j` or `j > len(b)`) -/
+def slice? (b : Bytes) (i j : Nat) : Option Bytes :=
+  if i ≤ j ∧ j ≤ b.length then some ((b.drop i).take (j - i)) else none
+
+def stunHeaderLen : Nat := 20
+def stunMagic : Bytes := [0x21, 0x12, 0xa4, 0x42]
+def stunFingerprintAttr : Nat := 0x8028
+
+/-- `stun.Is` -/
+def stunIs (b : Bytes) : Bool :=
+  decide (b.length ≥ stunHeaderLen) &&
+  (match b[0]? with | some x => x.toNat / 64 == 0 | none => false) &&
+  ((b.drop 4).take 4 == stunMagic)
+
+inductive StunRes
+  | notStun | notBinding | malformed | noFingerprint
+  | crc (n : Nat)      -- reached the fingerprint comparison over the first `n` bytes
+  | panic
+deriving DecidableEq, Repr
+
+/-- `foreachAttr` with the callback of `ParseBindingRequest`: returns the type of the last
+attribute (0 if none); `none` = `ErrMalformedAttrs`; `panic` if a slice is out of range.
+`fuel` bounds the loop (every iteration consumes at least 4 bytes). -/
+def stunAttrs : Nat → Bytes → Nat → Option (Option Nat)
+  | 0, _, _ => some none          -- unreachable with fuel ≥ length
+  | fuel+1, b, last =>
+    if b.length = 0 then some (some last)
+    else if b.length < 4 then some none
+    else
+      match slice? b 0 2, slice? b 2 4 with
+      | some ty, some ln =>
+        let attrLen := beNat ln
+        let withPad := (attrLen + 3) / 4 * 4
+        match slice? b 4 b.length with
+        | none => none
+        | some b' =>
+          if withPad > b'.length then some none
+          else
+            match slice? b' 0 attrLen, slice? b' withPad b'.length with
+            | some _, some rest => stunAttrs fuel rest (beNat ty)
+            | _, _ => none
+      | _, _ => none
+
+/-- `ParseBindingRequest` up to (not including) the CRC-32 comparison -/
+def stunParse (b : Bytes) : StunRes :=
+  if !stunIs b then .notStun
+  else
+    match slice? b 0 2 with
+    | none => .panic
+    | some ty =>
+      if ty ≠ [0, 1] then .notBinding
+      else
+        match slice? b 8 20, slice? b stunHeaderLen b.length with
+        | some _, some attrs =>
+          match stunAttrs (attrs.length + 1) attrs 0 with
+          | none => .panic
+          | some none => .malformed
+          | some (some last) =>
+            if last ≠ stunFingerprintAttr then .noFingerprint
+            else
+              match slice? b 0 (b.length - 8) with
+              | some pre => .crc pre.length
+              | none => .panic
+        | _, _ => .panic
+
 end Scion.Scmp
